@@ -10,11 +10,11 @@ import (
 	"github.com/anishathalye/porcupine"
 	"github.com/syndtr/goleveldb/leveldb"
 	"github.com/syndtr/goleveldb/leveldb/opt"
+	"github.com/syndtr/goleveldb/leveldb/storage"
 	"github.com/syndtr/goleveldb/leveldb/util"
 	"verif/explore"
 	"verif/harness"
 	"verif/model"
-	"github.com/syndtr/goleveldb/leveldb/storage"
 	"verif/vsched"
 	"verif/vstor"
 	"verif/vsync"
@@ -145,15 +145,15 @@ func linModel(init map[string]string) porcupine.Model {
 
 // concRun is one execution's record.
 type concRun struct {
-	Hist   []porcupine.Operation
-	Init   map[string]string
-	Errs   []string
-	Viol   []string
-	Descr  []string
-	TrVals map[string]bool // values written through a transaction (never in the journal)
-	Stor   *harness.World
-	Faulted bool    // storage faults were armed during the window
-	Dur    []durRec // writes acknowledged with the sync option (or committed transactions)
+	Hist    []porcupine.Operation
+	Init    map[string]string
+	Errs    []string
+	Viol    []string
+	Descr   []string
+	TrVals  map[string]bool // values written through a transaction (never in the journal)
+	Stor    *harness.World
+	Faulted bool     // storage faults were armed during the window
+	Dur     []durRec // writes acknowledged with the sync option (or committed transactions)
 }
 
 // durRec: a write whose acknowledgement promises durability; AckPos is the length of the
@@ -229,6 +229,7 @@ func runConc(p *concParams, prefix []int, extra func(w *harness.World, cr *concR
 				cr.Errs = append(cr.Errs, fmt.Sprintf("c%d %s: %s", cid, what, out.Err))
 			}
 		}
+		var closeCall int64 // history clock when Close was first called (0: not yet)
 		vsched.Arm()
 		for ci, ops := range p.Clients {
 			ci, ops := ci, ops
@@ -361,6 +362,15 @@ func runConc(p *concParams, prefix []int, extra func(w *harness.World, cr *concR
 						}
 						out := linOutput{Vals: []string{string(encodeState(m))}, Err: errStr(it.Error())}
 						it.Release()
+						rel := tick()
+						if closeCall > 0 && closeCall < rel {
+							// Close was called while this iterator was being created or was still
+							// unreleased: "it is not safe to close a DB until all outstanding iterators
+							// are released" - what such an iterator yields is outside the contract
+							// (it must still not hang or crash)
+							cr.Descr = append(cr.Descr, fmt.Sprintf("c%d %s -> (iterator outstanding across Close: not judged)", ci, op))
+							break
+						}
 						cr.Hist = append(cr.Hist, porcupine.Operation{ClientId: ci, Input: linInput{Kind: "scan"}, Call: call, Output: out, Return: ret})
 						cr.Descr = append(cr.Descr, fmt.Sprintf("c%d %s -> %v %s", ci, op, out.Vals, out.Err))
 					case "cr":
@@ -369,6 +379,9 @@ func runConc(p *concParams, prefix []int, extra func(w *harness.World, cr *concR
 							cr.Errs = append(cr.Errs, fmt.Sprintf("c%d cr: %v", ci, err))
 						}
 					case "close":
+						if closeCall == 0 {
+							closeCall = tick()
+						}
 						db.Close()
 					case "ro":
 						db.SetReadOnly()
